@@ -304,6 +304,11 @@ func execTreeCmd(env *Env, files Tree, cmd treeCmd, dmode string) (CLIResult, Tr
 		res = runCLI(env, dir, "", append([]string{"-d", filepath.Join(root, "rules")}, cmd.args...)...)
 	case "d-rel":
 		res = runCLI(env, dir, "", append([]string{"-d", "root/regex-assembly/include"}, cmd.args...)...)
+	case "d-file":
+		// the start path leads through a regular file (stat fails with ENOTDIR, not ENOENT): the root is still the nearest ancestor
+		res = runCLI(env, dir, "", append([]string{"-d", filepath.Join(root, "regex-assembly", "notes.txt")}, cmd.args...)...)
+	case "d-missing":
+		res = runCLI(env, dir, "", append([]string{"-d", filepath.Join(root, "rules", "nosuchdir", "deeper")}, cmd.args...)...)
 	default: // cwd
 		res = runCLI(env, root, "", cmd.args...)
 	}
@@ -311,14 +316,14 @@ func execTreeCmd(env *Env, files Tree, cmd treeCmd, dmode string) (CLIResult, Tr
 }
 
 func suiteTreeFrame(env *Env, res *Result) {
-	res.Rule = "generated CRS trees (rules file in CRS layout, 0..n assembly files incl. chained and nested-directory ones, include/exclude files, toolchain.yaml present or absent, test files, setup example; decoys: other extensions, 7-digit and .bak names, non-.ra files in include/, README files, a sibling tree outside the root) x every command and flag combination (single target, --all, --check, -o github) x root given as -d ROOT, -d ROOT/sub, relative -d, or the working directory; recursive snapshot (path, bytes) of the whole scratch directory before/after: inspecting commands change nothing, rewriting commands change only their targets, nothing is created or deleted; for the rewriting commands the changed files and the exit status are compared with Model/Cli.v; non-trivial = a rewriting command that changes a file"
+	res.Rule = "generated CRS trees (rules file in CRS layout, 0..n assembly files incl. chained and nested-directory ones, include/exclude files, toolchain.yaml present or absent, test files, setup example; decoys: other extensions, 7-digit and .bak names, non-.ra files in include/, README files, a sibling tree outside the root) x every command and flag combination (single target, --all, --check, -o github) x root given as -d ROOT, -d ROOT/sub, relative -d, a -d path through a regular file, a -d path that does not exist, or the working directory; recursive snapshot (path, bytes) of the whole scratch directory before/after: inspecting commands change nothing, rewriting commands change only their targets, nothing is created or deleted; for the rewriting commands the changed files and the exit status are compared with Model/Cli.v; non-trivial = a rewriting command that changes a file"
 	r := NewRng(env.Seed + 1500)
 	n := env.N(12, 400)
 	var runs []*treeRun
 	for i := 0; i < n; i++ {
 		t := genCRSTree(r)
 		for _, c := range treeCommands(t, r) {
-			dmode := r.Pick([]string{"d-root", "d-root", "d-sub", "d-rel", "cwd"})
+			dmode := r.Pick([]string{"d-root", "d-root", "d-sub", "d-rel", "cwd", "d-file", "d-missing"})
 			runs = append(runs, &treeRun{t: t, cmd: c, dmode: dmode})
 		}
 	}
